@@ -7,7 +7,8 @@
                   coefficients [pcoef n m] and for the mask (bool, ||) with coefficients [pmask n m].
     wf d sh x   = x is a rectangular d-dimensional array of shape sh.   All theorems: any d, any axis, any sizes. *)
 From Coq Require Import ZArith Reals List Lra Lia Bool Arith.
-From Dadi Require Import Base.Num Base.NumR Model.Projection Proofs.ProjBase Proofs.ProjH Proofs.ProjTensor Proofs.ProjSpectrum.
+From Dadi Require Import Base.Num Base.NumR Model.Projection Proofs.ProjBase Proofs.ProjH Proofs.ProjTensor Proofs.ProjSpectrum
+  Proofs.ProjFoldConsistent Proofs.ProjFoldMask.
 Import ListNotations.
 Local Open Scope R_scope.
 
@@ -104,8 +105,7 @@ Print Assumptions C08_mask_spreads_exactly.
 
 (** folded spectra: project works on unfold(fs) and folds the result; the ingredient that makes this
     consistent (fold(project fs) = project(fold fs)) is that projection commutes with reversing all axes.
-    Full statement, not proved here (fold/unfold algebra is C09):
-      forall fs ns, fold (project ns fs) = project ns (fold fs)   -- evaluated on the implementation every run. *)
+    (ingredient of the full statement C08_folded_projection_consistent below) *)
 Theorem C08_folded_projection_consistent_partial : forall d ax n m sh (x : tens R d),
   wf d sh x -> (ax < d)%nat -> nth ax sh 0%nat = S n -> (m <= n)%nat ->
   proj_axis 0 Rplus d ax (pcoef n m) m (trev d x) = trev d (proj_axis 0 Rplus d ax (pcoef n m) m x).
@@ -115,6 +115,49 @@ Theorem C08_folded_projection_consistent_mask_partial : forall d ax n m sh (x : 
   proj_axis false orb d ax (pmask n m) m (trev d x) = trev d (proj_axis false orb d ax (pmask n m) m x).
 Proof. exact projection_commutes_with_reversal_mask. Qed.
 Print Assumptions C08_folded_projection_consistent_partial.
+
+(** folded spectra: Spectrum.project on a folded spectrum unfolds, projects and folds back.  Projecting the folded
+    spectrum fold(x) this way is defined exactly when projecting x is, and gives the fold of the projection of x:
+        fold (project ns (unfold (fold x))) = fold (project ns x)      -- data and mask, any dimension, shape, targets.
+    Ingredients: unfold(fold x) is the symmetrisation (x + mirror x)/2 [mask: x || mirror x || corners], projection is
+    linear and commutes with the mirror, fold forgets the symmetrisation. *)
+Theorem C08_folded_projection_consistent : forall d ns sh (x : tens R d) mk mk',
+  wf d sh x -> Forall (fun L => 1 <= L)%nat sh ->
+  option_map fst (project d ns true (fold_data d x) mk')
+  = option_map (fun p => fold_data d (fst p)) (project d ns false x mk).
+Proof. exact folded_projection_consistent. Qed.
+Print Assumptions C08_folded_projection_consistent.
+
+Theorem C08_folded_projection_consistent_mask : forall d ns sh (x x' : tens R d) (mk : tens bool d),
+  wf d sh x -> wf d sh x' -> wf d sh mk -> Forall (fun L => 1 <= L)%nat sh ->
+  option_map snd (project d ns true x (fold_mask d mk))
+  = option_map (fun p => fold_mask d (snd p)) (project d ns false x' mk).
+Proof. exact folded_projection_consistent_mask. Qed.
+Print Assumptions C08_folded_projection_consistent_mask.
+
+Theorem C08_unfold_of_fold_is_symmetrisation : forall d sh (x : tens R d),
+  wf d sh x -> Forall (fun L => 1 <= L)%nat sh -> unfold_data d (fold_data d x) = unfold_data d x.
+Proof. exact unfold_fold_data. Qed.
+Theorem C08_fold_forgets_symmetrisation : forall d sh (y : tens R d),
+  wf d sh y -> Forall (fun L => 1 <= L)%nat sh -> fold_data d (unfold_data d y) = fold_data d y.
+Proof. exact fold_unfold_data. Qed.
+Theorem C08_projection_commutes_with_symmetrisation : forall d ax n m sh (x : tens R d),
+  wf d sh x -> Forall (fun L => 1 <= L)%nat sh -> (ax < d)%nat -> nth ax sh 0%nat = S n -> (m <= n)%nat ->
+  proj_axis 0 Rplus d ax (pcoef n m) m (unfold_data d x) = unfold_data d (proj_axis 0 Rplus d ax (pcoef n m) m x).
+Proof. exact proj_axis_unfold_data. Qed.
+
+(** non-vacuity: the folded 1-D spectrum of (1,2,3,4) projected from 3 to 2 samples *)
+Example C08_folded_nonvacuous :
+  let x : tens R 1 := [1; 2; 3; 4] in let mk : tens bool 1 := [false; false; false; false] in
+  wf 1 [4]%nat x /\ exists y my, project 1 [2]%nat true (fold_data 1 x) mk = Some (y, my) /\
+  exists x1 m1, project 1 [2]%nat false x mk = Some (x1, m1) /\ y = fold_data 1 x1.
+Proof. cbv zeta. set (x := ([1; 2; 3; 4] : tens R 1)). set (mk := ([false; false; false; false] : tens bool 1)).
+  assert (Hw : wf 1 [4]%nat x) by (cbn; repeat split; repeat constructor).
+  assert (Hp : Forall (fun L => 1 <= L)%nat [4]%nat) by (repeat constructor).
+  split; [exact Hw|].
+  destruct (project 1 [2]%nat false x mk) as [[x1 m1]|] eqn:E; [|cbn in E; discriminate E].
+  destruct (folded_projection_consistent_eq 1 [2]%nat [4]%nat x mk mk x1 m1 Hw Hp E) as (y & my & E' & Ey).
+  exists y, my. split; [exact E'|]. exists x1, m1. split; [reflexivity|exact Ey]. Qed.
 
 (** projecting upward is refused *)
 Theorem C08_upward_refused : forall d ns folded (x : tens R d) mk,
